@@ -763,7 +763,10 @@ impl ObjectStoreMetadataClient {
                     .entry(bucket)
                     .or_insert_with(Vec::new)
                     .push(path.clone());
-                bucket += Self::NANOS_PER_HOUR;
+                bucket = match bucket.checked_add(Self::NANOS_PER_HOUR) {
+                    Some(next) => next,
+                    None => break, // last representable hour bucket reached
+                };
             }
         }
 
@@ -812,7 +815,10 @@ impl ObjectStoreMetadataClient {
                     .entry(bucket)
                     .or_default()
                     .push(path.to_string());
-                bucket += Self::NANOS_PER_HOUR;
+                bucket = match bucket.checked_add(Self::NANOS_PER_HOUR) {
+                    Some(next) => next,
+                    None => break, // last representable hour bucket reached
+                };
             }
             catalog.version = 2;
 
